@@ -27,7 +27,10 @@ Inductive io :=
 Inductive golits := GNone | GAll (l : list bytes) | GAny (l : list bytes) | GComb (a y : list bytes).
 
 Inductive case :=
-  CP (r r0 : re) (minlen : nat) (pf_nil : bool) (gl : golits) (exact : option (bytes * bool)) (ios : list io).
+  CP (r r0 : re) (minlen : nat) (pf_nil : bool) (gl : golits) (exact : option (bytes * bool)) (ios : list io)
+  (* the parsed, NOT simplified AST (it still has OpRepeat nodes): minLen and extractLiterals
+     called on it through the hooks, and Go's engine verdict per input for the semantics of Rep *)
+| CU (ru : re) (minlen : N) (gl : golits) (ms : list (bytes * bool)).
 
 Fixpoint lb_eqb (a b : list bytes) : bool :=
   match a, b with
@@ -92,6 +95,11 @@ Definition ok (c : case) : bool :=
       && lits_eqb (extract_literals r (has_flag r)) gl
       && exact_eqb (extract_exact r0) exact && exact_rel r0 r
       && forallb (io_ok r pfo rc) ios
+  | CU ru minlen gl ms =>
+      wf_re ru
+      && (N.of_nat (min_len ru) =? minlen)
+      && lits_eqb (extract_literals ru (has_flag ru)) gl
+      && forallb (fun p => Bool.eqb (re_matchb ru (fst p)) (snd p)) ms
   end.
 
 Definition mismatches (l : list case) : list nat := mismatches_of ok l.
@@ -125,4 +133,9 @@ Definition diag (c : case) : list nat :=
       ++ (if lits_eqb (extract_literals r (has_flag r)) gl then [] else [4])
       ++ (if exact_eqb (extract_exact r0) exact && exact_rel r0 r then [] else [5])
       ++ ios_diag r pfo rc 0 ios)%nat
+  | CU ru minlen gl ms =>
+      ((if wf_re ru then [] else [1])
+      ++ (if (N.of_nat (min_len ru) =? minlen)%N then [] else [2])
+      ++ (if lits_eqb (extract_literals ru (has_flag ru)) gl then [] else [4])
+      ++ (if forallb (fun p => Bool.eqb (re_matchb ru (fst p)) (snd p)) ms then [] else [104]))%nat
   end.
